@@ -122,7 +122,7 @@ func genArg(rng *rand.Rand, big bool) string {
 }
 
 func c04(c *wk.Ctx) {
-	c.Note("rule", "each plan: an in-process directory server (unix; tcp too in thorough) hosting the freshly generated Probe service as 2 services x 3 objects; 4-32 caller goroutines over 1-4 sessions (own proxies each) issue calls work(token, arg) with unique tokens and argument sizes 0 B - 256 KiB to random objects while method bodies park and are released in PRNG order (replies cross); some calls are cancelled through their context while parked; two goroutines call through two proxies obtained from one bus.Cache on one connection; a raw harness connection sends frames of every message type (Post, Cancel, Capability, Reply, Error, Event, Cancelled) addressed to the real action with fresh tokens, each followed by a barrier Call on the same connection and object, then a burst of 20-80 posts and calls pipelined in one write (one response frame per call, none per post, per-token execution counts). Oracle: each call returns once, success => exactly f(own token, own arg) and exec[token]==1; otherwise exec<=1; Post: exec<=1 and no frame with the post's id comes back; any other type: exec==0. Stream huge: a call whose arguments fit but whose result is a string of about the maximal length (reply payload from a few bytes under to a few bytes over the 10 MiB limit): one outcome, own result or an error, never a hang. Stream lent: one session lends a client-hosted Helper object to each of 2-4 Desk objects of one service over its single connection; other sessions call relay() on the desks at the same moment (helper bodies park and are released in PRNG order): each call returns what its own helper computed for its own arguments, that helper ran once for the token, the other helpers never; then a third party gets the lent objects from the desks and calls their parameterless poke() through contexts it cancels in flight: executions <= calls issued. Distinct non-trivial = distinct plans in which at least two calls overlapped and at least one reply-order inversion was observed.")
+	c.Note("rule", "each plan: an in-process directory server (unix; tcp too in thorough) hosting the freshly generated Probe service as 2 services x 3 objects; 4-32 caller goroutines over 1-4 sessions (own proxies each) issue calls work(token, arg) with unique tokens and argument sizes 0 B - 256 KiB to random objects while method bodies park and are released in PRNG order (replies cross); some calls are cancelled through their context while parked; two goroutines call through two proxies obtained from one bus.Cache on one connection; three goroutines call through their own proxies obtained from the hosting server's in-process session; a raw harness connection sends frames of every message type (Post, Cancel, Capability, Reply, Error, Event, Cancelled) addressed to the real action with fresh tokens, each followed by a barrier Call on the same connection and object, then a burst of 20-80 posts and calls pipelined in one write (one response frame per call, none per post, per-token execution counts). Oracle: each call returns once, success => exactly f(own token, own arg) and exec[token]==1; otherwise exec<=1; Post: exec<=1 and no frame with the post's id comes back; any other type: exec==0. Stream huge: a call whose arguments fit but whose result is a string of about the maximal length (reply payload from a few bytes under to a few bytes over the 10 MiB limit): one outcome, own result or an error, never a hang. Stream lent: one session lends a client-hosted Helper object to each of 2-4 Desk objects of one service over its single connection; other sessions call relay() on the desks at the same moment (helper bodies park and are released in PRNG order): each call returns what its own helper computed for its own arguments, that helper ran once for the token, the other helpers never; then a third party gets the lent objects from the desks and calls their parameterless poke() through contexts it cancels in flight: executions <= calls issued. Distinct non-trivial = distinct plans in which at least two calls overlapped and at least one reply-order inversion was observed.")
 	c.Cases("plan", c.Pick(72, 2000), func(i int, rng *rand.Rand) {
 		transport := "unix"
 		if c.Thorough() && i%3 == 2 {
@@ -193,7 +193,7 @@ func c04one(c *wk.Ctx, i int, rng *rand.Rand, transport string) {
 		// proxies are created before the load starts (metaObject calls under load may be
 		// dropped with "consumer blocked", which would only make the plan inconclusive)
 		setupMu.Lock()
-		if config == "cache-proxies" {
+		if config == "cache-proxies" || config == "local-session" {
 			get(0, 0)
 		} else {
 			for s := 0; s < 2; s++ {
@@ -207,8 +207,8 @@ func c04one(c *wk.Ctx, i int, rng *rand.Rand, transport string) {
 		<-start
 		for k := 0; k < perCaller; k++ {
 			s, o := r.Intn(2), r.Intn(3)
-			if config == "cache-proxies" {
-				s, o = 0, 0 // same object and action through two proxies of one cache
+			if config == "cache-proxies" || config == "local-session" {
+				s, o = 0, 0 // same object and action through several proxies (of one cache / of the server's own session)
 			}
 			p := get(s, o)
 			if p == nil {
@@ -271,6 +271,21 @@ func c04one(c *wk.Ctx, i int, rng *rand.Rand, transport string) {
 					return nil, err
 				}
 				return probe.MakeProbe(cache, p), nil
+			}, rand.New(rand.NewSource(rng.Int63())))
+		}
+	}
+	// proxies obtained from the hosting server's own (in-process) session, one per goroutine
+	{
+		local := w.server.Session()
+		for k := 0; k < 3; k++ {
+			wg.Add(1)
+			ready.Add(1)
+			go runCaller(2000+k, local, 200, "local-session", func(s, o int) (probe.ProbeProxy, error) {
+				p, err := local.Proxy(w.svcs[0].name, w.svcs[0].objs[0].id)
+				if err != nil {
+					return nil, err
+				}
+				return probe.MakeProbe(local, p), nil
 			}, rand.New(rand.NewSource(rng.Int63())))
 		}
 	}
